@@ -311,8 +311,14 @@ fn variant_name<E: std::fmt::Debug>(e: &E) -> String {
     s.split(|c: char| !(c.is_alphanumeric() || c == '_')).next().unwrap_or("").to_string()
 }
 
+/// Corrupts `bytes`: a bit flip at `pos` (length preserved), or, for `pos == usize::MAX`,
+/// the last byte dropped (length changed).
 fn flip(bytes: &[u8], pos: usize) -> Vec<u8> {
     let mut b = bytes.to_vec();
+    if pos == usize::MAX {
+        b.pop();
+        return b;
+    }
     if !b.is_empty() {
         let p = pos % b.len();
         b[p] ^= 0x20 | (1 << (p % 8));
@@ -695,7 +701,7 @@ pub fn run_case(i: usize, v: &Value, seed: u64, sources: &mut Sources, stats: &m
     let tampered = st.values().any(|s| *s != "ok") && case.profile != "ref";
     let mut viol: Vec<(String, String)> = Vec::new();
     let mut drift: Vec<String> = Vec::new();
-    let positions: Vec<usize> = if tampered && st.values().any(|s| *s == "corrupt") { vec![0, 3, 17, 64, 1_000_003] } else { vec![0] };
+    let positions: Vec<usize> = if tampered && st.values().any(|s| *s == "corrupt") { vec![0, 3, 17, 64, 1_000_003, usize::MAX] } else { vec![0] };
     let r = util::catch(|| {
         let mut attempts: Vec<(String, Outcome)> = Vec::new();
         for pos in &positions {
